@@ -21,6 +21,17 @@ open TF TF.Engine TF.Spec
 @[simp] theorem R_bind_eq {α β : Type} (x : R α) (f : α → R β) : (x >>= f) = x.bind f := rfl
 @[simp] theorem R_pure_eq {α : Type} (a : α) : (pure a : R α) = .ok a := rfl
 
+/-- Pointwise relation between two lists of the same length. -/
+inductive Forall2 {α β : Type} (r : α → β → Prop) : List α → List β → Prop
+  | nil : Forall2 r [] []
+  | cons {a b as bs} : r a b → Forall2 r as bs → Forall2 r (a :: as) (b :: bs)
+
+theorem Forall2.mono {α β : Type} {r s : α → β → Prop} {as bs} (h : Forall2 r as bs)
+    (hrs : ∀ a b, r a b → s a b) : Forall2 s as bs := by
+  induction h with
+  | nil => exact .nil
+  | cons h _ ih => exact .cons (hrs _ _ h) ih
+
 /-- Everything fixed during one correspondence proof: dataset, arguments, the specification's edge
 declarations, the component being executed, and the static tag/output tables. -/
 structure World where
